@@ -310,6 +310,29 @@ pub fn h_cmp_exact(s: &mut In) -> HR {
 }
 //@ props C10 C07
 //@ role twin
+//@ nokani
+//@ twin_of values_num:eq values_num:partial_cmp
+pub fn h_cmp_inexact(s: &mut In) -> HR {
+    // "compare an exact with an inexact operand after converting the exact one to binary32": with at least one inexact
+    // operand every comparison is the IEEE comparison of the converted operands (native grid only: GRID_F32 has the
+    // infinities, NaN, -0.0 and two reals closer than f32::EPSILON)
+    // (three draws per operand keep the grid exhaustive within the budget: 6 * 19 * 13 values each)
+    let draw = |s: &mut In| -> N { let tag = s.u8(); let a = s.i32(); let f = s.f32();
+        match tag % 3 { 0 => Number::Integer(a), 1 => Number::Rational(a, 2), _ => Number::Real(f) } };
+    let x = draw(s);
+    let y = draw(s);
+    vassume!(!is_exact(&x) || !is_exact(&y));
+    let conv = |n: &N| -> f32 { match n { Number::Integer(a) => *a as f32, Number::Rational(a, b) => *a as f32 / *b as f32, Number::Real(f) => *f } };
+    let (a, b) = (conv(&x), conv(&y));
+    vcheck!("=  with an inexact operand is IEEE == on the converted operands", (x == y) == (a == b));
+    vcheck!("<  with an inexact operand is IEEE <", (x < y) == (a < b));
+    vcheck!(">  with an inexact operand is IEEE >", (x > y) == (a > b));
+    vcheck!("<= with an inexact operand is IEEE <=", (x <= y) == (a <= b));
+    vcheck!(">= with an inexact operand is IEEE >=", (x >= y) == (a >= b));
+    Ok(())
+}
+//@ props C10 C07
+//@ role twin
 //@ twin_of values_num:exact_eqv
 pub fn h_eqv(s: &mut In) -> HR {
     let x = draw_number(s);
